@@ -165,7 +165,8 @@ def call_value(fr, fv, args, kw, extra, n):
             fr.env = dict(captured, **dict(zip(names, args)))
             fr.mod = mod_
             try:
-                return fr.ex(node.body)           # a lambda is its body with the parameters bound
+                r_ = fr.ex(node.body)             # a lambda is its body with the parameters bound
+                return NONE if fv[1] in fr.ctx.__dict__.get('lambda_returns_none', ()) else r_
             finally:
                 fr.env, fr.mod = saved_env, saved_mod
     fr.ctx.event('call', 'dynamic', [fv] + list(args), kw, guard=fr.guard(), loops=fr.loops, where=fr.where(n))
@@ -1101,6 +1102,12 @@ def method(fr, recv, recv_node, name, args, kw, extra, n):
             return C(getattr(recv[1], name)())
         return T.call('str.' + name, (recv,))
     if name == 'format':
+        if T.isconst(recv) and isinstance(recv[1], str) and all(T.isconst(a) and isinstance(a[1], (str, int)) and not isinstance(a[1], bool) for a in args) \
+                and all(T.isconst(v) and isinstance(v[1], (str, int)) and not isinstance(v[1], bool) for v in kw.values()):
+            try:
+                return C(recv[1].format(*[a[1] for a in args], **{k: v[1] for k, v in kw.items()}))      # constant template, constant string / integer fields
+            except Exception:
+                pass
         return T.call('str.format', (recv,) + tuple(args), kw)
     # ---- pandas
     if name == 'to_dict' and (a0 == C('records') or kw.get('orient') == C('records')):
@@ -1108,6 +1115,9 @@ def method(fr, recv, recv_node, name, args, kw, extra, n):
     if name == 'rank' and tag == 'table' and not args and not kw:
         return ('table', tuple((c, T.call('rank', (v,))) for c, v in recv[1]), recv[2])       # DataFrame.rank() ranks every column on its own
     if name == 'rank':
+        # pandas documents the defaults: method='average', ascending=True, na_option='keep', pct=False, axis=0: spelling a default out changes nothing
+        dflt = {'method': C('average'), 'ascending': C(True), 'na_option': C('keep'), 'pct': C(False), 'axis': C(0), 'numeric_only': C(False)}
+        kw = {k: v for k, v in kw.items() if dflt.get(k) != v}
         return T.call('rank', (recv,), kw)
     if name == 'rename' and 'columns' not in kw and kw.get('axis') in (C('columns'), C(1)) and (a0 is not None or 'mapper' in kw):
         # rename(mapper, axis='columns') == rename(columns=mapper)
